@@ -140,7 +140,7 @@ func genRecord(r *sx.Rng, typ auparse.AuditMessageType, seq uint32, sec int64, p
 			sx.Pick(r, []string{"(null)", "\"k1\"", "\"a=b\"", "6B31016B32", "616C706861010162657461", "016B", "6B0101", "6101016201016301"}), extra()) // several keys, hex with the 0x01 separator, empty ones among them
 	case auparse.AUDIT_PATH:
 		body = fmt.Sprintf("item=%d name=\"/p/%s\" inode=%d dev=fd:01 mode=%s ouid=%d ogid=%d rdev=00:0%d obj=u:object_r:t:s0 nametype=%s%s", r.Intn(3), val(r)[:1], r.Intn(99999),
-			sx.Pick(r, []string{"0100644", "040755", "0120777", "020620", "060660", "010600", "0140755", "0104755", "bogus"}), r.Intn(2000), r.Intn(2000), r.Intn(9), sx.Pick(r, []string{"NORMAL", "PARENT", "CREATE", "DELETE", "UNKNOWN"}), extra())
+			sx.Pick(r, []string{"0100644", "040755", "0120777", "020620", "060660", "010600", "0140755", "0104755", "bogus", "100644", "40755", "644", "0o100644", "0x1ed", "0b110", "1_00644"}), r.Intn(2000), r.Intn(2000), r.Intn(9), sx.Pick(r, []string{"NORMAL", "PARENT", "CREATE", "DELETE", "UNKNOWN"}), extra())
 	case auparse.AUDIT_EXECVE:
 		argc := r.Intn(4)
 		body = fmt.Sprintf("argc=%d", argc)
